@@ -84,6 +84,27 @@ def judge(case):
     if rel.max() > 1e-9:
         i = int(np.argmax(rel))
         msgs.append(f"{alg}_{N}: area of cell {i} = {areas[i]!r}, true region area {orc['area'][i]!r}")
+    # the same object asked again after the other getters (incl. the approximate area estimate) must still report the
+    # true tessellation: the statement is about the grid, not about the first call
+    try:
+        with quiet():
+            g.get_spherical_voronoi().get_voronoi_volumes(approx=True)
+            g.get_center_distances(), g.get_cell_borders(), g.get_voronoi_adjacency()
+            areas_again = np.asarray(g.get_voronoi_volumes())
+            # and a second object of the same grid on which the getters are called in another order, estimate first
+            g2 = fresh_sphere_grid(alg, N)
+            g2.get_spherical_voronoi().get_voronoi_volumes(approx=True)
+            dis2, bor2, adj2 = g2.get_center_distances(), g2.get_cell_borders(), g2.get_voronoi_adjacency()
+            areas2 = np.asarray(g2.get_voronoi_volumes())
+        if not np.array_equal(areas_again, areas):
+            msgs.append(f"{alg}_{N}: the exact areas change when asked again after the approximate estimate")
+        if not (np.array_equal(areas2, areas) and np.array_equal(dense(bor2), dense(bor)) and np.array_equal(dense(adj2), dense(adj))
+                and np.array_equal(dense(dis2), dense(dis))):
+            dev = float(np.abs(areas2 - areas).max()) if areas2.shape == areas.shape else float("nan")
+            msgs.append(f"{alg}_{N}: asking the same grid again (after the approximate estimate and the other getters) changes "
+                        f"the reported geometry (areas differ by up to {dev:.3g})")
+    except Exception as e:
+        msgs.append(f"{alg}_{N}: second round of getters raised {type(e).__name__}: {e}")
     return msgs, info
 
 
